@@ -30,6 +30,46 @@ def _decimal_arg(node, ShapeError):
     raise ShapeError("not a Decimal(<literal>): " + ast.dump(node))
 
 
+def _module_consts(*trees):
+    """NAME -> value node for module-level and class-level `NAME = <expr>` assignments of the given modules"""
+    out = {}
+    for tree in trees:
+        for n in tree.body:
+            if isinstance(n, ast.Assign) and len(n.targets) == 1 and isinstance(n.targets[0], ast.Name):
+                out.setdefault(n.targets[0].id, n.value)
+            if isinstance(n, ast.ClassDef):
+                for m in n.body:
+                    if isinstance(m, ast.Assign) and len(m.targets) == 1 and isinstance(m.targets[0], ast.Name):
+                        out.setdefault(m.targets[0].id, m.value)
+    return out
+
+
+def _resolve(node, consts, depth=0):
+    """follow `NAME` / `Something.NAME` to the constant expression it was assigned (a literal moved into a named constant is the same
+    constant: the extractor follows the name instead of insisting on the literal's position)"""
+    while depth < 5:
+        key = node.id if isinstance(node, ast.Name) else node.attr if isinstance(node, ast.Attribute) else None
+        if key is None or key not in consts:
+            return node
+        node = consts[key]
+        depth += 1
+    return node
+
+
+def _assign_in_class(tree, cls, var, consts=None):
+    """value node of the first `var = <constant expression>` in any method of class `cls` (the statement may move between methods;
+    assignments of computed values to the same name are skipped)"""
+    for c in tree.body:
+        if isinstance(c, ast.ClassDef) and c.name == cls:
+            for n in ast.walk(c):
+                if isinstance(n, ast.Assign) and len(n.targets) == 1 and getattr(n.targets[0], "id", "") == var:
+                    v = _resolve(n.value, consts or {})
+                    if isinstance(v, ast.Call) and getattr(v.func, "id", getattr(v.func, "attr", None)) == "Decimal" \
+                            and len(v.args) == 1 and isinstance(v.args[0], ast.Constant):
+                        return v
+    return None
+
+
 def _quant_digits(text, ShapeError):
     # "0.0001" -> 4
     if not (text.startswith("0.") and set(text[2:-1]) <= {"0"} and text.endswith("1")):
@@ -62,18 +102,20 @@ def register(add, parse, find_func, const_int, rat_of, ShapeError, module_assign
         "AaveV3CoreLib.MAX_LIQUIDATION_CLOSE_FACTOR")
     add("aaveCloseFactorHf", "Rat", rat_of(_decimal_arg(consts["CLOSE_FACTOR_HF_THRESHOLD"], ShapeError)),
         "AaveV3CoreLib.CLOSE_FACTOR_HF_THRESHOLD")
+    helper = parse("demeter/aave/helper.py")
+    market = parse("demeter/aave/market.py")
+    named = _module_consts(core, helper, market)
     # get_max_borrow_value: ... * Decimal("0.99")
     fn = find_func(core, "get_max_borrow_value", cls="AaveV3CoreLib")
     ui = None
     for n in ast.walk(fn):
         if isinstance(n, ast.Return) and isinstance(n.value, ast.BinOp) and isinstance(n.value.op, ast.Mult):
-            ui = _decimal_arg(n.value.right, ShapeError)
+            ui = _decimal_arg(_resolve(n.value.right, named), ShapeError)
     if ui is None:
         raise ShapeError("get_max_borrow_value: '* Decimal(\"0.99\")' not found")
     add("aaveMaxBorrowUi", "Rat", rat_of(ui), "factor applied by get_max_borrow_value (dapp web ui)")
 
     # helper.MIN_TOKEN_VALUE = 1e-18 - 1e-27 (float arithmetic; compared against a Decimal -> exact binary value)
-    helper = parse("demeter/aave/helper.py")
     mtv = _float_expr(module_assign(helper, "MIN_TOKEN_VALUE"), ShapeError)
     add("aaveMinTokenValue", "Rat", rat_of(mtv), f"exact binary value of the float MIN_TOKEN_VALUE = {mtv!r} (helper.sub_base_amount)")
     sba = find_func(helper, "sub_base_amount")
@@ -84,13 +126,12 @@ def register(add, parse, find_func, const_int, rat_of, ShapeError, module_assign
     if not ok:
         raise ShapeError("sub_base_amount: 'new_v < MIN_TOKEN_VALUE' not found")
 
-    market = parse("demeter/aave/market.py")
     # get_market_balance: rounding = Decimal("0.0001")
     gmb = find_func(market, "get_market_balance", cls="AaveV3Market")
     q = None
     for n in ast.walk(gmb):
         if isinstance(n, ast.Assign) and getattr(n.targets[0], "id", "") == "rounding":
-            q = _decimal_arg(n.value, ShapeError)
+            q = _decimal_arg(_resolve(n.value, named), ShapeError)
     if not isinstance(q, str):
         raise ShapeError("get_market_balance: rounding = Decimal(\"...\") not found")
     add("aaveBalanceQuantDigits", "Nat", str(_quant_digits(q, ShapeError)), f"get_market_balance quantizes to Decimal({q!r})")
@@ -99,17 +140,13 @@ def register(add, parse, find_func, const_int, rat_of, ShapeError, module_assign
     nd = None
     for n in ast.walk(rp):
         if isinstance(n, ast.Call) and getattr(n.func, "id", "") == "round" and len(n.args) == 2:
-            nd = const_int(n.args[1])
+            nd = const_int(_resolve(n.args[1], named))
     if nd is None:
         raise ShapeError("repay: round(..., 18) not found")
     add("aaveRepayRoundDigits", "Nat", str(nd), "repay: round(debt_base - payback_base, n) >= 0")
     # _liquidate: min_borrow_value = Decimal(10e21)  (float literal -> exact value)
-    lq = find_func(market, "_liquidate", cls="AaveV3Market")
-    sent = None
-    for n in ast.walk(lq):
-        if isinstance(n, ast.Assign) and getattr(n.targets[0], "id", "") == "min_borrow_value" and isinstance(n.value, ast.Call) \
-                and getattr(n.value.func, "id", "") == "Decimal":
-            sent = _decimal_arg(n.value, ShapeError)
+    v = _assign_in_class(market, "AaveV3Market", "min_borrow_value", named)
+    sent = None if v is None else _decimal_arg(_resolve(v, named), ShapeError)
     if sent is None:
         raise ShapeError("_liquidate: min_borrow_value sentinel not found")
     add("aaveLiqSentinel", "Rat", rat_of(sent), "_liquidate: initial min_borrow_value ('a very large number')")
